@@ -1,0 +1,95 @@
+//go:build verif
+
+// Contracts for package schedule, checked by /verif/govc. Comment-only: no code.
+package schedule
+
+//@ props C01
+
+// Rate integrals of the documented profiles (reals; t and D in seconds).
+//@ spec func Iconst(ops real, t real) real = ops * t
+//@ spec func Iline(from real, to real, D real, t real) real = from*t + (to-from)/D*t*t/2
+//@ spec func secs(d time.Duration) real = real(d) / 1000000000.0
+
+// ---------------------------------------------------------------- const
+
+//@ func NewConst
+//@ requires duration >= 1000000
+//@ at call constDoAt assert [rate] arg(ops) == max(ops0, 0.0)
+//@ at call NewDoAtSchedule assert [duration] arg(duration) == duration0
+//@ at call NewDoAtSchedule assert [count] arg(n) == floor(Iconst(max(ops0, 0.0), secs(duration0)))
+
+//@ func constDoAt#lit0
+//@ captures billionDivOps == 1000000000.0/ops
+//@ requires ops > 0.0 && i >= 0
+//@ ensures [not-late] real(result) <= real(i)*1000000000.0/ops
+//@ ensures [within-1ns] real(i)*1000000000.0/ops < real(result) + 1.0
+//@ ensures [not-before-start] result >= 0
+
+//@ func constDoAt
+//@ requires ops >= 0.0
+
+// ---------------------------------------------------------------- line
+
+//@ func NewLine
+//@ requires from >= 0.0 && to >= 0.0 && duration >= 1000000
+//@ at call NewConst assert [flat] arg(ops) == from0 && arg(duration) == duration0
+//@ at call lineDoAt assert [slope] arg(a) == (to0-from0)/secs(duration0) && arg(b) == from0
+//@ at call NewDoAtSchedule assert [duration] arg(duration) == duration0
+//@ at call NewDoAtSchedule assert [count] arg(n) == floor(Iline(from0, to0, secs(duration0), secs(duration0)))
+
+//@ func lineDoAt
+//@ requires a != 0.0
+
+//@ func lineDoAt#lit0
+//@ captures twoA == 2.0*a && bSquare == b*b && bilionDivA == 1000000000.0/a
+//@ requires a != 0.0 && b >= 0.0 && i >= 0 && 2.0*a*real(i) + b*b >= 0.0
+//@ let x = real(result)/1000000000.0
+//@ let x1 = real(result+1)/1000000000.0
+//@ ensures [not-late] a*x*x/2.0 + b*x <= real(i) && a*x + b >= 0.0
+//@ ensures [within-1ns] a*x1*x1/2.0 + b*x1 > real(i) || a*x1 + b < 0.0
+//@ ensures [not-before-start] result >= 0
+
+// ---------------------------------------------------------------- once
+
+//@ func NewOnce
+//@ at call NewDoAtSchedule assert [all-at-start] arg(duration) == 0 && arg(n) == n0
+
+//@ func NewOnce#lit0
+//@ ensures [at-start] result == 0
+
+// ---------------------------------------------------------------- doAt schedule
+
+//@ func NewDoAtSchedule
+//@ props C01 C02
+//@ ensures typeis(result, *doAtSchedule) && fresh(result.(*doAtSchedule))
+//@ ensures result.(*doAtSchedule).duration == duration && result.(*doAtSchedule).n == n
+//@ ensures result.(*doAtSchedule).doAt == doAt && result.(*doAtSchedule).i == 0
+//@ ensures !result.(*doAtSchedule).started && !once(result.(*doAtSchedule).startOnce)
+
+//@ fieldfunc doAtSchedule.doAt
+//@ pure
+
+//@ func (s *StartSync) MarkStarted
+//@ props C01 C02
+//@ may_panic s.started
+//@ ensures s.started
+//@ modifies s.started
+
+//@ func (s *doAtSchedule) Next
+//@ props C01 C02
+//@ requires s.started == once(s.startOnce)
+//@ ensures [consumes-one-index] s.i == old(s.i) + 1
+//@ ensures [token] imp(old(s.i) < s.n, ok && tx == s.start + apply(s.doAt, old(s.i)))
+//@ ensures [exhausted] imp(old(s.i) >= s.n, !ok && tx == s.start + s.duration)
+//@ ensures [start-kept] imp(old(once(s.startOnce)), s.start == old(s.start))
+//@ ensures s.started && once(s.startOnce)
+
+//@ func (s *doAtSchedule) Start
+//@ props C01 C02
+//@ requires s.started == once(s.startOnce)
+//@ may_panic s.started
+//@ ensures s.start == startAt && s.started && once(s.startOnce)
+
+//@ func (s *doAtSchedule) Left
+//@ props C01 C02
+//@ ensures [exact] result == max(0, s.n - s.i)
